@@ -150,12 +150,71 @@ func (w *failingWriter) Write(p []byte) (int, error) {
 	return len(p), nil
 }
 
+// blocksOnly: every goroutine prints every basic block of a FRESHLY parsed module through Block.LLString alone (no module- or function-level print, so nothing
+// has settled lazily cached types under a lock); the texts must be those a lone sequential pass over another fresh parse gives
+func blocksOnly(fn string, g int) (bool, bool) {
+	ref, err := asm.ParseFile(fn)
+	if err != nil {
+		return true, false
+	}
+	var want []string
+	for _, f := range ref.Funcs {
+		for _, b := range f.Blocks {
+			want = append(want, b.LLString())
+		}
+	}
+	m, _ := asm.ParseFile(fn)
+	var wg sync.WaitGroup
+	ok := make([]bool, g)
+	for i := 0; i < g; i++ {
+		wg.Add(1)
+		go func(i int) {
+			defer wg.Done()
+			k, good := 0, true
+			for _, f := range m.Funcs {
+				for _, b := range f.Blocks {
+					good = good && b.LLString() == want[k]
+					k++
+				}
+			}
+			ok[i] = good
+		}(i)
+	}
+	wg.Wait()
+	for _, b := range ok {
+		if !b {
+			return false, true
+		}
+	}
+	return true, true
+}
+
 func main() {
 	g, _ := strconv.Atoi(os.Args[1])
 	rounds, _ := strconv.Atoi(os.Args[2])
 	mixed := os.Args[3] == "mixed"
 	files := os.Args[4:]
 	bad := 0
+	if os.Args[3] == "blocks" {
+		for r := 0; r < rounds; r++ {
+			for _, fn := range files {
+				good, parsed := blocksOnly(fn, g)
+				if !parsed {
+					continue
+				}
+				res := "ok"
+				if !good {
+					res = "MISMATCH"
+					bad++
+				}
+				fmt.Printf("case %s blocks %s\n", fn, res)
+			}
+		}
+		if bad > 0 {
+			os.Exit(1)
+		}
+		return
+	}
 	for r := 0; r < rounds; r++ {
 		// failed prints first (sequentially, then from several goroutines at once), healthy concurrent prints afterwards
 		for k := 0; k < 3; k++ {
